@@ -393,7 +393,7 @@ func checkC09(p *core.Program, r *core.Report) {
 		lazyFields := map[string]map[string]string{
 			"excellent/types.XObject": {"props": "filled by ensureInitialized; the eager constructors fill it", "def": "set together with props by ensureInitialized; the eager constructors call it", "deprecated": "written by SetDeprecated only (R6)",
 				"marshalDefault": "!uncalled", "marshalDeprecated": "!uncalled"},
-			"excellent/types.XArray":  {"data": "filled by values(); the eager constructors fill it", "deprecated": "written by SetDeprecated only (R6)"},
+			"excellent/types.XArray": {"data": "filled by values(); the eager constructors fill it", "deprecated": "written by SetDeprecated only (R6)"},
 		}
 		nW := 0
 		for _, fn := range p.ModuleFunctions() {
@@ -674,7 +674,7 @@ func c09R4(p *core.Program, r *core.Report) {
 			key := core.FuncName(rootFn(fn)) + "/localizable-writer " + prm.Name()
 			fresh := len(roots) > 0
 			for root := range roots {
-				if !c09EnumeratesOnCopy(root) {
+				if !c09EnumeratesOnCopy(p, root) {
 					fresh = false
 				}
 			}
@@ -686,46 +686,138 @@ func c09R4(p *core.Program, r *core.Report) {
 }
 
 // c09EnumeratesOnCopy: every EnumerateLocalizables call in root (and its closures) is on a value derived from copy()/clone().
-func c09EnumeratesOnCopy(root *ssa.Function) bool {
-	fresh, any := true, false
-	{
-		{
-			core.EachInstr(root, false, func(_ *ssa.Function, in ssa.Instruction) {
-				c, ok := in.(*ssa.Call)
-				if !ok {
-					return
-				}
-				name := ""
-				if c.Call.IsInvoke() {
-					name = c.Call.Method.Name()
-				} else if f := c.Call.StaticCallee(); f != nil {
-					name = f.Name()
-				}
-				if name != "EnumerateLocalizables" {
-					return
-				}
-				var recv ssa.Value
-				if c.Call.IsInvoke() {
-					recv = c.Call.Value
-				} else {
-					recv = c.Call.Args[0]
-				}
-				any = true
-				onCopy := false
-				for v := range core.BackSlice(recv, nil) {
-					if cc2, ok := v.(*ssa.Call); ok {
-						if f := cc2.Call.StaticCallee(); f != nil && (f.Name() == "copy" || f.Name() == "clone" || f.Name() == "Clone") {
-							onCopy = true
-						}
-					}
-				}
-				if !onCopy {
-					fresh = false
-				}
-			})
+func c09EnumeratesOnCopy(p *core.Program, root *ssa.Function) bool {
+	return c09EnumeratesOnCopyAt(p, root, 0)
+}
+
+// c09DerivesFromCopy: v is derived from the result of a copy()/clone() call in its own function.
+func c09DerivesFromCopy(v ssa.Value) bool {
+	for x := range core.BackSlice(v, nil) {
+		if cc2, ok := x.(*ssa.Call); ok {
+			if f := cc2.Call.StaticCallee(); f != nil && (f.Name() == "copy" || f.Name() == "clone" || f.Name() == "Clone") {
+				return true
+			}
 		}
 	}
+	return false
+}
+
+func c09EnumeratesOnCopyAt(p *core.Program, root *ssa.Function, depth int) bool {
+	fresh, any := true, false
+	core.EachInstr(root, false, func(_ *ssa.Function, in ssa.Instruction) {
+		c, ok := in.(*ssa.Call)
+		if !ok {
+			return
+		}
+		name := ""
+		if c.Call.IsInvoke() {
+			name = c.Call.Method.Name()
+		} else if f := c.Call.StaticCallee(); f != nil {
+			name = f.Name()
+		}
+		if name != "EnumerateLocalizables" {
+			return
+		}
+		var recv ssa.Value
+		if c.Call.IsInvoke() {
+			recv = c.Call.Value
+		} else {
+			recv = c.Call.Args[0]
+		}
+		any = true
+		onCopy := c09DerivesFromCopy(recv)
+		if !onCopy {
+			// generalised: the in-place work was moved into an unexported function that gets the flow as a parameter
+			// (or receiver) — the flow is a copy when every caller passes a value derived from copy()/clone() there
+			onCopy = c09ParamIsCopyAtEveryCall(p, root, recv, depth)
+		}
+		if !onCopy {
+			fresh = false
+		}
+	})
 	return fresh && any
+}
+
+// c09ParamIsCopyAtEveryCall: v derives from parameters of the unexported, never-escaping function fn only (no other
+// origin), fn has callers outside tests, and at every one of them the argument for each such parameter derives from
+// copy()/clone() (or, one more level up, from a parameter of an unexported function for which the same holds).
+func c09ParamIsCopyAtEveryCall(p *core.Program, fn *ssa.Function, v ssa.Value, depth int) bool {
+	if depth > 2 || fn.Parent() != nil || fn.Object() == nil || fn.Object().Exported() || c09FuncUsedAsValue(p, fn) {
+		return false
+	}
+	var idxs []int
+	for x := range core.BackSlice(v, nil) {
+		switch y := x.(type) {
+		case *ssa.Parameter:
+			for i, fp := range fn.Params {
+				if fp == y {
+					idxs = append(idxs, i)
+				}
+			}
+		case *ssa.Global, *ssa.FreeVar:
+			return false
+		}
+	}
+	if len(idxs) == 0 {
+		return false
+	}
+	n := 0
+	for _, site := range p.CallsTo(fn) {
+		if p.IsTestFile(site.Pos()) {
+			continue
+		}
+		cc := site.Common()
+		if cc.StaticCallee() != fn {
+			return false // not a direct call: the argument positions are not known
+		}
+		n++
+		for _, i := range idxs {
+			if i >= len(cc.Args) {
+				return false
+			}
+			a := cc.Args[i]
+			if c09DerivesFromCopy(a) {
+				continue
+			}
+			if site.Caller == fn || !c09ParamIsCopyAtEveryCall(p, rootFn(site.Caller), a, depth+1) || site.Caller.Parent() != nil {
+				return false
+			}
+		}
+	}
+	return n > 0
+}
+
+// c09FuncUsedAsValue: fn is referenced other than as the callee of a direct call (method value, stored in a table):
+// its callers cannot be enumerated.
+func c09FuncUsedAsValue(p *core.Program, fn *ssa.Function) bool {
+	used := false
+	for _, g := range p.ModuleFunctions() {
+		if used {
+			break
+		}
+		core.EachInstr(g, false, func(_ *ssa.Function, in ssa.Instruction) {
+			for _, op := range in.Operands(nil) {
+				g, isFn := (*op).(*ssa.Function)
+				if !isFn || !(g == fn || (g.Synthetic != "" && g.Object() != nil && g.Object() == fn.Object())) {
+					continue // neither fn nor a bound-method closure / thunk of it
+				}
+				if ci, ok := in.(ssa.CallInstruction); ok && ci.Common().Value == ssa.Value(g) {
+					// the callee position of a direct call
+					isArg := false
+					for _, a := range ci.Common().Args {
+						if a == ssa.Value(g) {
+							isArg = true
+						}
+					}
+					if !isArg {
+						continue
+					}
+				}
+				used = true
+			}
+		})
+	}
+	return used
 }
 
 // c09LockHeld returns "" when a mutex is held at `at` in fn: a Lock() dominates it and no explicit Unlock can reach it
